@@ -208,6 +208,22 @@ def _image(spec, ctx, R):
     st = Q.stack_quat_channels(*[full[..., t].copy() for t in range(4)])
     p2 = Q.split_quat_channels(st)
     ctx.check("channels_roundtrip", all(np.array_equal(p2[t], full[..., t]) for t in range(4)), site="split(stack)")
+    # the four channels in DIFFERENT dtypes (an integer / boolean mask or float32 plane as the real part next to float64 colours, and the
+    # other way round): split(stack(...)) returns the values that were put in
+    mixes = [(np.uint8, np.float64), (np.int64, np.float64), (np.float32, np.float64), (np.float64, np.float32), (np.float64, np.int32), (bool, np.float64),
+             (np.float64, np.float64)]
+    t0, t1 = mixes[spec["idx"] % len(mixes)]
+    q0 = (rng.integers(0, 2, size=(H, W)) if t0 is bool else (rng.integers(0, 200, size=(H, W)) if np.dtype(t0).kind in "iu" else rng.random((H, W)))).astype(t0)
+    cols = [(rng.integers(-50, 50, size=(H, W)) if np.dtype(t1).kind in "iu" else rng.random((H, W))).astype(t1) for _ in range(3)]
+    chans = [q0] + cols
+    try:
+        stm = Q.stack_quat_channels(*[ch.copy() for ch in chans])
+        pm = Q.split_quat_channels(stm)
+        okm = len(pm) == 4 and all(np.array_equal(np.asarray(pm[t], dtype=np.float64), chans[t].astype(np.float64)) for t in range(4))
+    except Exception as e:
+        okm = False
+    ctx.hit("callform:channels_mixed_dtypes")
+    ctx.check("channels_roundtrip", okm, site="split(stack):mixed_dtypes", tags=[f"{np.dtype(t0).name}+{np.dtype(t1).name}"])
     if spec["idx"] < 2:
         ctx.sample({"image_kind": kind, "shape": [H, W], "real_part": rp})
 
